@@ -7,6 +7,7 @@ import (
 	"sort"
 	"strings"
 	"sync"
+	"sync/atomic"
 	"time"
 
 	"github.com/ali-assar/NATS-Leader-Election/leader"
@@ -88,10 +89,10 @@ type HWatcher struct {
 
 func (hw *HWatcher) Updates() <-chan leader.Entry { return hw.ch }
 func (hw *HWatcher) Stop() {
-	hw.w.mu.Lock()
+	hw.w.lock()
 	hw.stopped = true
 	hw.queue = nil
-	hw.w.mu.Unlock()
+	hw.w.unlock()
 }
 
 type hEntry struct {
@@ -255,10 +256,15 @@ type World struct {
 	curEvent      string // name of the event being executed
 	providerCalls int
 
+	muOwner  atomic.Int64
+	helpers  map[int]bool // harness helper goroutines (snapshot readers): never parked
 	fineOn   bool
+	fineUsed bool
 	parked   []*parkedG
-	lastGid  int
+	lastRun  string
 	finePts  int
+	gnames   map[int]string
+	glabels  map[string]int
 
 	baseGor     int
 	fired       []bool
@@ -273,6 +279,21 @@ type World struct {
 
 func (w *World) now() time.Duration { return time.Since(w.epoch) }
 
+// lock/unlock guard the harness state. In fine mode the owner is recorded so that
+// library calls made by harness code while it holds the lock (IsLeader() inside a
+// metrics callback, ...) are not treated as scheduling points of the library.
+func (w *World) lock() {
+	w.mu.Lock()
+	if w.scn.FineAt != "" || w.scn.FineFrom != "" {
+		w.muOwner.Store(int64(curGID()))
+	}
+}
+
+func (w *World) unlock() {
+	w.muOwner.Store(0)
+	w.mu.Unlock()
+}
+
 func (w *World) signal() {
 	select {
 	case w.wake <- struct{}{}:
@@ -284,7 +305,7 @@ func (w *World) signal() {
 // until the scheduler answers it.
 func (w *World) submit(op *Op) *Op {
 	label, inStop, inWL := callPath()
-	w.mu.Lock()
+	w.lock()
 	if op.Label == "" {
 		op.Label = label
 	}
@@ -317,7 +338,7 @@ func (w *World) submit(op *Op) *Op {
 		if op.Kind == "Rand" {
 			op.resF = 0.5
 		}
-		w.mu.Unlock()
+		w.unlock()
 		if w.spin != "" {
 			// break zero-time loops: park for a virtual millisecond so that the bubble
 			// makes progress and the run can be torn down and reported
@@ -330,7 +351,7 @@ func (w *World) submit(op *Op) *Op {
 	}
 	w.pending = append(w.pending, op)
 	w.ev(Ev{K: "op.issue", I: op.Inst, Op: op.ID})
-	w.mu.Unlock()
+	w.unlock()
 	w.signal()
 	<-op.done
 	return op
@@ -342,9 +363,9 @@ func (w *World) ev(e Ev) {
 }
 
 func (w *World) evL(e Ev) {
-	w.mu.Lock()
+	w.lock()
 	w.ev(e)
-	w.mu.Unlock()
+	w.unlock()
 }
 
 // answer completes op: the library goroutine resumes.
